@@ -321,6 +321,43 @@ fn run(name: &str, j: &J) -> Result<bool, String> {
             } }
             Ok(true)
         }
+        // C06: range of a unary float function over a union of intervals versus its value at one point of the set
+        "c06_unary_float_range" | "c06_periodic_search" => {
+            use qrlew::data_type::intervals::Intervals;
+            if name == "c06_periodic_search" {
+                // sets of one or two short intervals, near and far from the base period, sampled at their bounds and midpoints
+                let starts = [-7.0, -2.0, -0.1, 0.0, 1.0, 3.0, 4.5, 6.0, 20.0, 100.0];
+                for fname in ["sin", "cos"] { for a in starts { for w in [0.1, 1.0, 1.5, 4.0] { for b in starts {
+                    let mut iv = Intervals::<f64>::empty().union_interval(a, a + w);
+                    let ivs = if b > a + w { iv = iv.union_interval(b, b + 0.1); vec![vec![a, a + w], vec![b, b + 0.1]] } else { vec![vec![a, a + w]] };
+                    let dt = DataType::structured([("a", DataType::from(iv))]);
+                    let e = if fname == "sin" { Expr::sin(Expr::col("a")) } else { Expr::cos(Expr::col("a")) };
+                    let img = e.super_image(&dt).map_err(|e| e.to_string())?;
+                    for p in &ivs { for t in [0.0, 0.25, 0.5, 0.75, 1.0] {
+                        let x = p[0] + t * (p[1] - p[0]);
+                        let y = if fname == "sin" { x.sin() } else { x.cos() };
+                        // one ulp-scale tolerance: the shifted argument is rounded
+                        let near = |v: f64| img.contains(&Value::float(v));
+                        if !(near(y) || near(y + 1e-9) || near(y - 1e-9)) {
+                            println!("  type of {}(a) over {}: {}; at a = {} the value is {}", fname, dt, img, x, y);
+                            println!("QX-WITNESS {}", serde_json::json!({"fn": fname, "intervals": ivs, "x": x}));
+                            return Ok(false);
+                        }
+                    } }
+                } } } }
+                return Ok(true);
+            }
+            let mut iv = Intervals::<f64>::empty();
+            for p in j["intervals"].as_array().unwrap() { iv = iv.union_interval(p[0].as_f64().unwrap(), p[1].as_f64().unwrap()); }
+            let dt = DataType::structured([("a", DataType::from(iv))]);
+            let fname = j["fn"].as_str().unwrap();
+            let e = match fname { "sin" => Expr::sin(Expr::col("a")), "cos" => Expr::cos(Expr::col("a")), other => return Err(format!("fn {}", other)) };
+            let x = f(j, "x");
+            let y = match fname { "sin" => x.sin(), _ => x.cos() };
+            let img = e.super_image(&dt).map_err(|e| e.to_string())?;
+            println!("  type of {}(a) over {}: {}; at a = {} the value is {}", fname, dt, img, x, y);
+            Ok(img.contains(&Value::float(y)))
+        }
         _ => Err(format!("unknown replay `{}`", name)),
     }
 }
